@@ -75,16 +75,24 @@ def run(tier, seed):
         for v in st.get("impl_violations") or []:
             c.failing_input("impl-oracle:" + stream, v, v)
         mism = V.compare_model(c, exe_m, cases, stream)
-        any_mismatch = any_mismatch or bool(mism)
         found = 0
-        if mism and stream == "nat":
+        if stream == "nat":
+            # the natives against the second value-level specification of deletion (coq/c02/Dref.v = the
+            # harness reference _dref: every path resolved against the ORIGINAL value, descending deletions)
+            dm = V.compare_model(c, exe_m, cases, stream, spec=True)
+            stats["nat_dref_mismatches"] = len(dm)
+            mism_all = mism + [x for x in dm if x[0] not in set(l for l, _ in mism)]
+        else:
+            mism_all = mism
+        any_mismatch = any_mismatch or bool(mism_all)
+        if mism_all and stream == "nat":
             # search step 1: a native that disagrees with the value model is replayed at jq level against the
             # defining reduction (delpaths(ps) vs _dref(ps): every path resolved against the original value;
             # setpath then getpath) on the implementation: a disagreement there is a failing input
             idx = {}
             for i, l in enumerate(open(cases)):
                 idx.setdefault(l.rstrip("\n"), i)
-            want = sorted(set(idx[l] for l, _ in mism if l in idx))[:200]
+            want = sorted(set(idx[l] for l, _ in mism_all if l in idx))[:200]
             rc2, out2, rcases, _ = V.run_harness("c02", "nat", seed, n, tier, extra=["replay:" + ",".join(map(str, want))],
                                                  name="c02natreplay")
             js = [l.strip() for l in open(rcases)] if rc2 == 0 else []
@@ -94,6 +102,9 @@ def run(tier, seed):
                 found = len(c.violations) + len(c.known_hits) - before
         for line, verdict in mism[:5]:
             c.broken_correspondence(stream, line, "model verdict: " + verdict)
+        if stream == "nat":
+            for line, verdict in [x for x in mism_all if x not in mism][:5]:
+                c.broken_correspondence("nat:dref", line, "the natives differ from deletion against the original value: " + verdict)
         stats[stream] = dict(cases=st.get("lines"), mismatches=len(mism))
         if stream == "heap":
             # how often the natives deviate from VALUE semantics on aliased heaps (expected while the
@@ -101,6 +112,21 @@ def run(tier, seed):
             sm = V.compare_model(c, exe_m, cases, stream, spec=True)
             stats[stream]["value_semantics_deviations"] = len(sm)
             stats[stream]["deviation_samples"] = [l for l, _ in sm[:3]]
+    # the statement left open for inner slices (docs/C02.md): update/deleteEmpty sequences whose new values are
+    # free of containers made during the run, with slices followed by further components, against VALUE semantics
+    rc, out, cases, st = V.run_harness("c02", "heapsafe", seed, 20000 if quick else 400000, tier, name="c02heapsafe")
+    if rc != 0:
+        c.broken_correspondence("harness-run:heapsafe", None, V.tail(out, 40))
+    else:
+        hm = V.compare_model(c, exe_m, cases, "heapsafe")
+        hs = V.compare_model(c, exe_m, cases, "heapsafe", spec=True)
+        for line, verdict in hm[:3]:
+            c.broken_correspondence("heapsafe", line, "model verdict: " + verdict)
+        for line, verdict in hs[:3]:
+            c.broken_correspondence("heapsafe:value-semantics", line,
+                                    "the natives deviate from value semantics although every new value is frozen: " + verdict)
+        stats["heapsafe"] = dict(cases=st.get("lines"), mismatches=len(hm), value_semantics_deviations=len(hs))
+        any_mismatch = any_mismatch or bool(hm) or bool(hs)
     if any_mismatch:
         # search step 2: the whole systematic block (all ordered triples) and more random cases through the oracle
         st = oracle(c, seed + 1, 4000 if quick else 50000, tier, extra=["search"], name="search")
